@@ -139,6 +139,8 @@ def gen_tree(rnd, idx):
     t.incdirs = ['inc%d' % (i + 1) for i in range(ninc)]
     if ninc and rnd.random() < 0.3:
         t.incdirs[0] = maindir + '/vendor'          # an -i directory below the project
+    elif ninc and rnd.random() < 0.3:
+        t.incdirs[rnd.randrange(ninc)] = maindir    # the main file's own directory given as an -i directory (first or later)
     t.dirs.update([maindir, 'decoy', 'decoy/deep', 'elsewhere'] + t.incdirs)
     t.compress = rnd.random() < 0.5
     maxdepth = rnd.choice([0, 1, 1, 2, 2, 3, 3, 4])
@@ -150,7 +152,9 @@ def gen_tree(rnd, idx):
 
     def new_name(ext='asm'):
         st['nfile'] += 1
-        return 'f%d.%s' % (st['nfile'], ext)
+        # file names are case-sensitive: Regs3.asm and regs3.asm are two files
+        stem = rnd.choice(['f', 'f', 'f', 'Regs', 'GPIO_', 'Pins']) if rnd.random() < 0.4 else 'f'
+        return '%s%d.%s' % (stem, st['nfile'], ext)
 
     added = []
 
@@ -301,6 +305,9 @@ def gen_tree(rnd, idx):
             kind = 'include'
             name = new_name()
             target, written = reuse_ancestor_name(d, wchain) or place(d, name, depth)
+            if os.path.basename(target) != os.path.basename(target).lower():
+                add_shadow(os.path.dirname(target), os.path.basename(target).lower(), 'lowercase')
+                st['resol'].add('case-sensitive-name')
             form = rnd.choice(INCLUDE_FORMS)
             st['forms'].add(form.replace('%s', 'P').split('P')[0].strip() + ('q' if '"' in form or "'" in form else '') +
                             ('#' if '#' in form else ''))
